@@ -20,3 +20,169 @@ package fsnotify
 
 //@ lemma noteAllEvents == unix.NOTE_DELETE | unix.NOTE_WRITE | unix.NOTE_ATTRIB | unix.NOTE_RENAME                     [C15] "the flags subscribed for a user watch are exactly those the five portable operations need"
 //@ lemma forall(o, Op, o & (Create | Write | Remove | Rename | Chmod) == o && o & Create == 0 && o != 0 ==> exists(m, uint32, m & ^uint32(noteAllEvents) == 0 && specOpKqueue(m) & o != 0))   [C15] "none of Write, Remove, Rename, Chmod is left unobservable by the subscription (Create comes from directory listing)"
+
+// ---- descriptor accounting and bookkeeping (C17, C18), SEQUENTIAL view: the
+// kqueue backend takes watches.mu per table operation and has no
+// operation-wide lock, so these contracts describe single-threaded executions
+// only (see DESIGN.md). Ghost `open`: descriptors obtained from unix.Open and
+// not yet closed.
+//@ lockorder shared.mu < watches.mu
+//@ immutable kqueue.watches, kqueue.shared, kqueue.kq, kqueue.closepipe, kqueue.Events, kqueue.Errors, watches.wd, watches.path, watches.byDir, watches.seen, watches.byUser
+//@ chan kqueue.Events sender=reader closer=reader
+//@ chan kqueue.Errors sender=reader closer=reader
+//@ alloc kqueue grants reader
+//@ pred KWf(w *kqueue) := w.shared != nil && w.watches != nil && w.watches.wd != nil && w.watches.path != nil && w.watches.byDir != nil &&
+//@        w.watches.seen != nil && w.watches.byUser != nil && ref(w.watches.byUser) != ref(w.watches.seen) && w.shared.done != nil &&
+//@        w.Events == w.shared.Events && w.Errors == w.shared.Errors && w.Events != nil && w.Errors != nil && TabOK(w.watches)
+//@ pred TabOK(ws *watches) := forall(k, int, has(ws.wd, k) ==> ws.wd[k].wd == k) && forall(d, string, has(ws.byDir, d) ==> ws.byDir[d] != nil)
+
+//@ func (w *watches) remove(fd int, path string) (isDir bool)
+//@   requires w.wd != nil && w.path != nil && w.byDir != nil && w.seen != nil && w.byUser != nil && ref(w.byUser) != ref(w.seen) && !held(watches.mu)
+//@   requires TabOK(w)
+//@   ensures TabOK(w)
+//@   ensures w.path == del(old(w.path), path) && w.byUser == del(old(w.byUser), path) && w.seen == del(old(w.seen), path)      [C17 C18] "removing a watch clears its path, user mark and seen mark"
+//@   ensures forall(k, int, has(w.wd, k) <==> (has(old(w.wd), k) && k != fd)) && forall(k, int, has(w.wd, k) ==> w.wd[k] == old(w.wd)[k])   [C17] "and its descriptor entry, leaving the others alone"
+//@   ensures isDir == old(w.wd)[fd].isDir
+//@   ensures !held(watches.mu)
+
+//@ func (w *watches) add(path string, linkPath string, fd int, isDir bool)
+//@   requires w.wd != nil && w.path != nil && w.byDir != nil && w.seen != nil && w.byUser != nil && ref(w.byUser) != ref(w.seen) && !held(watches.mu)
+//@   requires TabOK(w)
+//@   ensures TabOK(w)
+//@   ensures has(w.wd, fd) && w.wd[fd].wd == fd && w.wd[fd].name == path && w.wd[fd].linkName == linkPath && w.wd[fd].isDir == isDir   [C17]
+//@   ensures forall(k, int, k != fd ==> (has(w.wd, k) <==> has(old(w.wd), k)) && w.wd[k] == old(w.wd)[k])                        [C17]
+//@   ensures w.path == set(old(w.path), path, fd) && w.byUser == old(w.byUser) && w.seen == old(w.seen)
+//@   ensures !held(watches.mu)
+
+//@ func (w *watches) addUserWatch(path string)
+//@   requires w.byUser != nil && w.seen != nil && ref(w.byUser) != ref(w.seen) && !held(watches.mu)
+//@   ensures has(w.byUser, path) && forall(q, string, q != path ==> (has(w.byUser, q) <==> has(old(w.byUser), q)))
+//@   ensures w.path == old(w.path) && w.wd == old(w.wd) && w.seen == old(w.seen) && !held(watches.mu)
+
+//@ func (w *watches) markSeen(path string, exists bool)
+//@   requires w.byUser != nil && w.seen != nil && ref(w.byUser) != ref(w.seen) && !held(watches.mu)
+//@   ensures (has(w.seen, path) <==> exists) && forall(q, string, q != path ==> (has(w.seen, q) <==> has(old(w.seen), q)))   [C18]
+//@   ensures w.path == old(w.path) && w.wd == old(w.wd) && w.byUser == old(w.byUser) && !held(watches.mu)
+
+//@ func (w *watches) seenBefore(path string) (r bool)
+//@   requires w.seen != nil && !held(watches.mu)
+//@   ensures r <==> has(w.seen, path)                                                                                          [C18]
+//@   ensures w.path == old(w.path) && w.wd == old(w.wd) && w.byUser == old(w.byUser) && w.seen == old(w.seen) && !held(watches.mu)
+
+//@ func (w *watches) listPaths(userOnly bool) (l []string)
+//@   requires w.byUser != nil && w.path != nil && !held(watches.mu)
+//@   ensures userOnly ==> forall(i, int, 0 <= i && i < len(l) ==> has(w.byUser, l[i]))                                         [C17] "WatchList shows only paths the user added"
+//@   ensures userOnly ==> forall(p, string, has(w.byUser, p) ==> exists(i, int, 0 <= i && i < len(l) && l[i] == p))            [C17]
+//@   ensures !userOnly ==> forall(p, string, has(w.path, p) ==> exists(i, int, 0 <= i && i < len(l) && l[i] == p))             [C17]
+//@   ensures w.path == old(w.path) && w.wd == old(w.wd) && w.byUser == old(w.byUser) && w.seen == old(w.seen) && !held(watches.mu)
+//@   loop 1 "for p := range w.byUser"
+//@     invariant held(watches.mu) && len(l) >= 0
+//@     invariant forall(i, int, 0 <= i && i < len(l) ==> has(visited, l[i]) && has(w.byUser, l[i]))
+//@     invariant forall(p, string, has(visited, p) ==> exists(i, int, 0 <= i && i < len(l) && l[i] == p))
+//@   loop 2 "for p := range w.path"
+//@     invariant held(watches.mu) && len(l) >= 0
+//@     invariant forall(p, string, has(visited, p) ==> exists(i, int, 0 <= i && i < len(l) && l[i] == p))
+
+//@ func (w *kqueue) register(fds []int, flags int, fflags uint32) (err error)
+//@   requires nolocks()
+//@   ensures nolocks() && open == old(open)
+//@   loop 1 "for i, fd := range fds"
+//@     invariant nolocks() && len(changes) == len(fds) && 0 <= loopIdx && loopIdx <= len(fds)
+
+//@ pred Shrinks(w *kqueue) := forall(k, int, has(open, k) ==> has(old(open), k)) && forall(k, int, has(w.watches.wd, k) ==> has(old(w.watches.wd), k)) &&
+//@        forall(q, string, has(w.watches.path, q) ==> has(old(w.watches.path), q)) && forall(q, string, has(w.watches.byUser, q) ==> has(old(w.watches.byUser), q))
+
+//@ func (w *kqueue) remove(name string, unwatchFiles bool) (err error)
+//@   requires KWf(w) && nolocks()
+//@   ensures KWf(w)
+//@   let p = filepath.Clean(name)
+//@   let fd = old(w.watches.path)[p]
+//@   let found = has(old(w.watches.wd), fd)
+//@   ensures nolocks()
+//@   ensures !closed(w.done) && !found ==> err != nil && errIs(err, ErrNonExistentWatch)                                      [C17]
+//@   ensures !closed(w.done) && found && err == nil ==> !has(open, fd) && !has(w.watches.wd, fd) && !has(w.watches.path, p) && !has(w.watches.byUser, p)    [C17] "when a watch ends through Remove its descriptor is closed and its table entries are gone"
+//@   ensures Shrinks(w)                                                                                                        [C17] "removing opens nothing and adds no entry"
+//@   loop 1 "for _, name := range pathsToRemove"
+//@     invariant nolocks() && KWf(w) && !has(open, fd) && !has(w.watches.wd, fd) && !has(w.watches.path, p) && !has(w.watches.byUser, p) && Shrinks(w)
+
+//@ func (w *kqueue) Remove(name string) (err error)
+//@   requires KWf(w) && nolocks()
+//@   ensures KWf(w)
+//@   let p = filepath.Clean(name)
+//@   let fd = old(w.watches.path)[p]
+//@   let found = has(old(w.watches.wd), fd)
+//@   ensures nolocks()
+//@   ensures !closed(w.done) && found && err == nil ==> !has(open, fd) && !has(w.watches.wd, fd) && !has(w.watches.path, p) && !has(w.watches.byUser, p)    [C17]
+//@   ensures Shrinks(w)                                                                                                        [C17]
+
+//@ func (w *kqueue) Close() (err error)
+//@   requires KWf(w) && nolocks()
+//@   ensures closed(w.done) && nolocks()                                                                                       [C17]
+//@   ensures !old(closed(w.done)) ==> forall(k, int, !has(open, k))                                                            [C17] "closing the Watcher closes every descriptor it opened for watched paths"
+//@   loop 1 "for _, name := range pathsToRemove"
+//@     invariant nolocks() && KWf(w) && closed(w.done)
+
+//@ func (w *kqueue) WatchList() (l []string)
+//@   requires KWf(w) && nolocks()
+//@   ensures !closed(w.done) ==> forall(i, int, 0 <= i && i < len(l) ==> has(w.watches.byUser, l[i]))                          [C17] "WatchList shows only paths the user added, never the per-entry watches created internally"
+//@   ensures nolocks()
+
+//@ func (w *kqueue) AddWith(name string, opts ...addOpt) (err error)
+//@   requires KWf(w) && nolocks() && token(reader) && !closed(w.Events) && !closed(w.Errors)
+//@   ensures nolocks()
+//@   atcall watches.addUserWatch: arg_path == filepath.Clean(name)                                                            [C17] "the user's path is recorded under the spelling that Remove and WatchList use (the cleaned one)"
+//@   atcall kqueue.addWatch: arg_flags == noteAllEvents                                                                        [C15 C17]
+
+//@ pred Recorded(w *kqueue) := forall(k, int, has(open, k) && !has(old(open), k) ==> has(w.watches.wd, k)) && forall(k, int, has(old(w.watches.wd), k) ==> has(w.watches.wd, k)) &&
+//@        forall(q, string, has(old(w.watches.seen), q) ==> has(w.watches.seen, q))
+
+//@ func (w *kqueue) addWatch(name string, flags uint32, listDir bool) (res string, err error)
+//@   requires KWf(w) && nolocks()
+//@   ensures KWf(w)
+//@   ensures nolocks()
+//@   ensures Recorded(w)                                                                                                       [C17] "a descriptor opened for a watch is either recorded in the table (so that it is closed when the watch ends) or closed at once"
+//@   ensures err == nil && listDir ==> res == "" || res == filepath.Clean(name)                                                [C18]
+//@   ensures hist(w.Events) == old(hist(w.Events))                                                                             [C18] "adding a watch on a directory reports nothing for the entries it already has"
+//@   loop 1 "for"
+//@     invariant nolocks() && KWf(w) && open == old(open) && w.watches.wd == old(w.watches.wd) && w.watches.seen == old(w.watches.seen) && hist(w.Events) == old(hist(w.Events))
+
+//@ func (w *kqueue) internalWatch(name string, fi os.FileInfo) (res string, err error)
+//@   requires KWf(w) && nolocks()
+//@   ensures KWf(w)
+//@   ensures nolocks() && Recorded(w)                                                                                          [C17]
+//@   ensures err == nil ==> res == "" || res == filepath.Clean(name)                                                           [C18]
+//@   ensures hist(w.Events) == old(hist(w.Events))                                                                             [C18]
+
+//@ func (w *kqueue) watchDirectoryFiles(dirPath string) (err error)
+//@   requires KWf(w) && nolocks()
+//@   ensures KWf(w)
+//@   ensures nolocks() && Recorded(w)                                                                                          [C17]
+//@   ensures hist(w.Events) == old(hist(w.Events))                                                                             [C18] "entries that existed when the watch was added are not reported"
+//@   loop 1 "for _, f := range files"
+//@     invariant nolocks() && KWf(w) && Recorded(w) && hist(w.Events) == old(hist(w.Events))
+
+//@ func (w *kqueue) sendCreateIfNew(path string, fi os.FileInfo) (err error)
+//@   requires KWf(w) && nolocks() && token(reader) && !closed(w.Events) && !closed(w.Errors)
+//@   requires filepath.Clean(path) == path
+//@   ensures KWf(w)
+//@   ensures nolocks() && Recorded(w) && !closed(w.Events) && !closed(w.Errors)                                                [C17]
+//@   ensures old(has(w.watches.seen, path)) ==> hist(w.Events) == old(hist(w.Events))                                          [C18] "an entry that has been seen is not reported as created again"
+//@   ensures !old(has(w.watches.seen, path)) && !closed(w.done) ==> hist(w.Events) == snoc(old(hist(w.Events)), Event{Name: path, Op: Create})   [C18] "a new entry is reported as Create, once, under the watched path as spelled"
+//@   ensures err == nil && !closed(w.done) ==> has(w.watches.seen, path)                                                        [C18] "after it has been reported, the entry counts as seen (so a later change of the directory does not report it again)"
+
+//@ func (w *kqueue) dirChange(dir string) (err error)
+//@   requires KWf(w) && nolocks() && token(reader) && !closed(w.Events) && !closed(w.Errors)
+//@   ensures KWf(w) && nolocks() && Recorded(w) && !closed(w.Events) && !closed(w.Errors)                                     [C17]
+//@   loop 1 "for _, f := range files"
+//@     invariant KWf(w) && nolocks() && Recorded(w) && token(reader) && !closed(w.Events) && !closed(w.Errors)
+
+//@ func (w *kqueue) readEvents()
+//@   thread
+//@   consumes reader
+//@   requires KWf(w) && nolocks() && token(reader) && !closed(w.Events) && !closed(w.Errors)
+//@   ensures closed(w.Events) && closed(w.Errors)                                                                              [C17] "the reader closes both channels when it exits"
+//@   atcall kqueue.remove: arg_name == filepath.Clean(arg_name) ==> arg_name == path.name                                     [C17] "when a watched path is deleted or renamed, the removal is asked for under the name the tables are keyed by (so that its descriptor is closed)"
+//@   loop 1 "for"
+//@     invariant KWf(w) && nolocks() && token(reader) && !closed(w.Events) && !closed(w.Errors)
+//@   loop 2 "for _, kevent := range kevents"
+//@     invariant KWf(w) && nolocks() && token(reader) && !closed(w.Events) && !closed(w.Errors)
